@@ -978,7 +978,8 @@ class RemoterTls(Remoter):
                                 errno.EHOSTDOWN,
                                 errno.ETIMEDOUT,
                                 errno.ECONNREFUSED,
-                                ssl.SSLEOFError):
+                                ssl.SSL_ERROR_EOF,
+                                ssl.SSL_ERROR_ZERO_RETURN):
                 self.cutoff = True  # this signals need to close/reopen connection
                 return bytes()  # data empty
             else:
@@ -1018,7 +1019,8 @@ class RemoterTls(Remoter):
                                 errno.EHOSTDOWN,
                                 errno.ETIMEDOUT,
                                 errno.ECONNREFUSED,
-                                ssl.SSLEOFError):
+                                ssl.SSL_ERROR_EOF,
+                                ssl.SSL_ERROR_ZERO_RETURN):
                 self.cutoff = True  # this signals need to close/reopen connection
                 result = 0
             else:
